@@ -27,6 +27,11 @@ object each call returns) are recorded from the real classes and validated by
 specs/Trace_AnnotDb.tla, which reuses the actions of AnnotDb.tla; a corrupted
 copy of one trace must be rejected (binding self-test).
 
+provenance (specs/AnnotDbProv.tla, harness/prov_C17.py).  Two related objects and
+where each lives (memory / bound to a file / in-memory copy of a file-bound
+object): update and union between them in both directions, for every combination
+of provenances, also after the copy was modified, on all three classes.
+
 design level (no database): the four OR-ed SQL overlap clauses transcribed in
 the spec agree with the oracle on the whole interval lattice (SqlAgrees), the
 oracle's overlap is "share a position", zero-length records, conversion; the
@@ -732,20 +737,29 @@ def check(run: Run):
         t0 = time.time()
         nev = trace_C17.validate(run, scratch, *((30, 12) if tier == "quick" else (300, 20)))
         run.extra["wall_by_phase_s"]["traces"] = round(time.time() - t0, 1)
+        # provenance: a file-bound object and in-memory copies of it as operands of update / union (AnnotDbProv.tla)
+        import prov_C17
+
+        t0 = time.time()
+        nprov = prov_C17.validate(run, scratch, fraction=0.3 if tier == "quick" else 1.0)
+        run.extra["wall_by_phase_s"]["provenance"] = round(time.time() - t0, 1)
     acts = dict(totals["byact"])
     needed = {"Query", "Subset", "Union", "Update", "Copy", "Pickle", "Json", "WriteLoad", "AddFeature", "AddRow", "LoadFile"}
     if needed - set(acts):
         raise MachineryError(f"vacuous run: no real execution of {sorted(needed - set(acts))}")
-    run.cov["traces_validated_against_impl"] = totals["n"] + nev
-    run.cov["evaluations"] = totals["n"] + nev
-    run.cov["distinct_nontrivial"] = totals["nontrivial"]
+    run.cov["traces_validated_against_impl"] = totals["n"] + nev + nprov
+    run.cov["evaluations"] = totals["n"] + nev + nprov
+    run.cov["distinct_nontrivial"] = totals["nontrivial"] + nprov
     run.cov["rule"] = (
         "a case = (database class, history of calls from an empty database, one more call) taken from the transitions TLC emitted; "
         "every case is executed once on the real class (cases are distinct by construction); non-trivial = the database holds a record "
         "before or after the call. Lattice configurations: every emitted transition is executed for each applicable class. History "
         "configuration: every transition from every state that Add calls can build is executed (depth 1); follow-up calls on the "
         "resulting real objects are a seeded sample of the transitions the spec emitted for the reached state. Recorded events of "
-        "seeded random call sequences accepted by Trace_AnnotDb.tla are counted in evaluations, not in distinct_nontrivial."
+        "seeded random call sequences accepted by Trace_AnnotDb.tla are counted in evaluations, not in distinct_nontrivial. "
+        "Provenance model (AnnotDbProv.tla): every update/union between a database and a derived second object (thorough: all; quick: every "
+        "provenance combination plus a seeded 30%) is run by replaying its shortest call path on real objects, comparing both objects after "
+        "each call; distinct (class, state, call) pairs executed are counted."
     )
     run.cov["exhaustive"] = False
     run.note("exhaustive_at_depth_1", True)
